@@ -381,6 +381,9 @@ CONTENT_PROGS = [
     [(10, [("let", ("var", "B"), ("num", 2.0, ["2"]), False), ("let", ("var", "A"), ("var", "MID"), False)])],
     [(10, [("let", ("var", "CHR"), ("num", 3.0, ["3"]), False)]), (20, [("print", [("e", ("var", "CHR"))], None)])],
     [(10, [("let", ("var", "A"), ("bin", "+", ("var", "STRING"), ("var", "LEFT")), False)]), (20, [("let", ("var", "Q"), ("var", "HEX"), False)])],
+    # comment text that holds the closing and opening marks of a BASIC09 comment, with runs of blanks behind them
+    [(10, [("rem", " (*** SCORE TABLE ***)  BY  J.  DOE", "REM")]), (20, [("let", ("var", "A"), ("num", 1.0, ["1"]), False), ("rem", " *)  TWO  BLANKS  (*  AND  MORE", "'")]),
+     (30, [("print", [("e", ("str", "*)  X  (*"))], None)])],
     # PRINT items that follow each other without a separator: two literals, a literal and a variable (the blank between
     # them is optional)
     [(10, [("print", [("e", ("str", "A")), ("e", ("str", "B"))], None)]), (20, [("print", [("e", ("str", "X")), ("e", ("var", "B$")), ("e", ("str", "Y Z")), ("sep", ";")], None)])],
@@ -394,7 +397,7 @@ CONTENT_PROGS = [
 def cases(tier, seed):
     for pr in CONTENT_PROGS:
         for md in ("family", "sweep"):
-            for o in ({}, {"initialize_vars": True, "filter_unused_linenum": True}):
+            for o in ({}, {"initialize_vars": True, "filter_unused_linenum": True}, {"output_dependencies": True, "procname": "p"}):
                 yield {"mode": md, "prog": pr, "seed": seed, "opts": o}
     n = 250 if tier == "quick" else 30000
     for i in range(n):
